@@ -15,6 +15,8 @@ TOKEN = [K("tokenize.py::Token.__getitem__"), K("tokenize.py::Token.__add__"),
          K("tokenize.py::Token.split"),
          K("tokenize.py::Token.replace"), K("tokenize.py::Token.lstrip"),
          K("tokenize.py::Token.rstrip"), K("tokenize.py::Token.strip"),
+         K("tokenize.py::Token.lstrip@chars"), K("tokenize.py::Token.rstrip@chars"),
+         K("tokenize.py::Token.strip@chars"),
          K("tokenize.py::Token.location")]
 
 REPEAT = [K("tal.py::RepeatDict.__call__")] + [K("tal.py::RepeatItem." + m) for m in
